@@ -8,6 +8,95 @@ from ..core import AnalysisError, U, calls_in, guards_of, iter_stmts, try_fold, 
 
 
 def check(prog, rep):
+    """Model evaluation first (any code shape); the shape-based rules are the fallback when the interpreter cannot follow."""
+    rep.explanation = (
+        "io.read_pqr, io.read_dx and io.write_cube evaluated by constant propagation on model files (every value count 0..44; a conversion "
+        "with every header construct and one value per magnitude class); shape-based rules on the value loop and token positions as "
+        "fallback"
+    )
+    rep.not_decided += ["DX dialects the reader documents it does not support"]
+    n0 = len(rep.rules)
+    rep.guarded(rule_model_partition, prog, rep)
+    rep.guarded(rule_model_conversion, prog, rep)
+    if not rep.deferred and len(rep.rules) == n0 + 2:
+        rule_reader_state(prog, rep)
+        return
+    del rep.rules[n0:]
+    rep.deferred.clear()
+    check_by_shape(prog, rep)
+
+
+def rule_reader_state(prog, rep):
+    """The reader must not keep state between calls (a second conversion in one process); decided on the model by
+    'second-read-equals-first' and structurally here: no module-level container is written by read_dx."""
+    r = rep.rule("R3", "the DX reader keeps no state between conversions", floor=1)
+    rd = prog.func("io.py", "read_dx")
+    consts = set(prog.module_env("io.py"))
+    writes = []
+    for n in walk_no_defs(rd.node):
+        if isinstance(n, ast.Call) and isinstance(n.func, ast.Attribute) and n.func.attr in ("append", "extend", "update", "setdefault", "insert"):
+            base = n.func.value
+            while isinstance(base, (ast.Subscript, ast.Attribute)):
+                base = base.value
+            if isinstance(base, ast.Name) and base.id in consts:
+                writes.append(U(n)[:50])
+        if isinstance(n, ast.Subscript) and isinstance(n.ctx, ast.Store):
+            base = n.value
+            while isinstance(base, (ast.Subscript, ast.Attribute)):
+                base = base.value
+            if isinstance(base, ast.Name) and base.id in consts:
+                writes.append(U(n)[:50])
+    shallow = [U(c)[:50] for c in calls_in(rd.node) if U(c.func) in ("dict", "copy.copy") and c.args and isinstance(c.args[0], ast.Name) and c.args[0].id in consts]
+    r.add("reader-state-fresh", not writes and not shallow,
+          "read_dx writes no module-level container and makes no shallow copy of one" if not writes and not shallow else
+          f"read_dx shares module-level state between calls: {writes + shallow}: a second conversion in the same process appends to the first one's values",
+          f"pdb2pqr/io.py:{rd.node.lineno} (read_dx)")
+
+
+def rule_model_partition(prog, rep):
+    """write_cube is evaluated for every value count 0..44 (more than seven rows of six): the value tokens written are the
+    list, once, in order, at most six per row."""
+    from ..guards import Flow, Obj
+    from ..objinterp import ObjRunner
+    r = rep.rule("R1", "value chunks partition the value list for every length", floor=1)
+    wc = prog.func("io.py", "write_cube")
+    where = f"pdb2pqr/io.py:{wc.node.lineno} (write_cube)"
+    bad = None
+    rows_seen = set()
+    for n in range(0, 45):
+        vals = [float(k + 1) + 0.12345 for k in range(n)]
+        written = []
+
+        def extra(runner, interp, call, args, kw, written=written):
+            if isinstance(call.func, ast.Attribute) and call.func.attr == "write":
+                recv = interp.ev(call.func.value)
+                if isinstance(recv, dict) and recv.get("__class__") == "FileModel":
+                    written.append(args[0])
+                    return None
+            return NotImplemented
+
+        run = ObjRunner(prog, "io.py", extra_hook=extra)
+        dx = {"grid spacing": [[1.0, 0.0, 0.0], [0.0, 1.0, 0.0], [0.0, 0.0, 1.0]], "values": vals, "number of grid points": (1, 1, max(n, 1)),
+              "lower left corner": [0.0, 0.0, 0.0]}
+        try:
+            run.call_function("io.py", "write_cube", Obj({"__class__": "FileModel"}), dx, [])
+        except Flow as fl:
+            bad = (n, f"write_cube stops with {fl.value}")
+            break
+        lines = "".join(str(x) for x in written).split("\n")
+        body = lines[6:]
+        toks = " ".join(body).split()
+        got = [_num(t_) for t_ in toks]
+        rows_seen |= {len(ln.split()) for ln in body if ln.strip()}
+        if got != vals:
+            bad = (n, f"{len(got)} value tokens {got[:8]}{'...' if len(got) > 8 else ''} for the {n} values {vals[:8]}{'...' if n > 8 else ''}")
+            break
+    r.add("partition", bad is None, "for every list length n = 0..44 the cube holds exactly the n values, once, in order" if bad is None else
+          f"for a list of {bad[0]} values: {bad[1]}", where)
+    r.add("row-length", bool(rows_seen) and max(rows_seen) <= 6, f"values per written row: {sorted(rows_seen)} (cube format: at most six per line)", where)
+
+
+def check_by_shape(prog, rep):
     rep.explanation = (
         "constant folding and slice-bound reasoning on io.write_cube's value loop (partition of the value list for "
         "every length), key agreement between io.read_dx and io.write_cube, token positions of the DX header "
@@ -282,7 +371,7 @@ def emit_indices(stmts, seq, n, env, cover, order, strides):
 
 
 DX_VALUES = [0.0, 1.0, -1.0, 5.97222497, -123456.789, 1e-300, -1e-300, 1e300, -1e300, 3.4e38 * 10, 1.2e-38 / 10, 0.1, 2.0 / 3.0, -7.25e-5, 9.999995,
-             12.0, 13.0, 14.0, 15.0, 16.0, 17.0, 18.0, 19.0, 20.0, 21.0]  # 25 = 1 x 5 x 5 values: not a multiple of three or six
+             12.123456789, 13.23456789, 14.3456789, 15.456789, 16.56789, 17.6789012, 18.7890123, 19.8901234, 20.9012345, 21.0123456]  # 25 = 1 x 5 x 5 values: not a multiple of three or six
 DX_COUNTS = (1, 5, 5)
 DX_ORIGIN = (-1.5, 2.25, 3.0)
 DX_DELTAS = [(0.5, 0.0, 0.0), (0.0, 0.25, 0.0), (0.0, 0.0, 1.0)]
